@@ -154,6 +154,12 @@ func (s *c06Scn) judge(desc any) (sig string) {
 		}
 	}
 	overflow := nNew != len(ins)
+	if overflow && len(dq)+len(ins)-nNew < 60 {
+		// fewer than 64 events were ever submitted in this history, so the 64-slot queue cannot have been full:
+		// nothing may have been dropped
+		w.Violation(i, "installed-version-never-announced", fmt.Sprintf("%d versions installed, %d new-config events dequeued, %d events in total: the callback queue (64 slots) never overflowed", len(ins), nNew, len(dq)), desc)
+		return ""
+	}
 	if overflow {
 		w.Count("histories_with_queue_overflow", 1)
 	} else {
